@@ -12,7 +12,7 @@ import concurrent.futures as cf
 import numpy as np
 
 VALS = {        # dense numbers "a" per parameterisation; "b" = a * (1 + 2.5e-8); "s" = values with exact zeros (stored sparsely)
-    "quat": ([0.5, 0.5, -0.5, 0.5], [0.6, 0.0, 0.8, 0.0]),
+    "quat": ([0.5, 0.5, -0.5, 0.5], [-0.6, 0.0, 0.8, 0.0]),      # "s": negative scalar part
     "mrp": ([0.2, -0.3, 0.1], [0.0, 0.3, 0.0]),
     "euler": ([0.3, -0.4, 0.5], [0.0, 0.3, 0.0]),
     "r3": ([1.0, -2.0, 0.5], [0.0, 1.5, 0.0]),
@@ -40,7 +40,7 @@ def _params(gname, which):
         "SE2": r2 + VALS["so2"][k], "SO2": VALS["so2"][k], "R3": r3,
         "SO3Quat*R3": q + r3, "SE3Quat*SE3Mrp": r3 + q + r3 + m, "SE3Mrp*SE3Quat": r3 + m + r3 + q,
         "alg:so3": VALS["alg3"][k], "alg:se3": r3 + VALS["alg3"][k], "alg:se23": r3 + [0.5, 0.0, -1.0] + VALS["alg3"][k] if k == 0 else r3 + [0.0, 0.0, -1.0] + VALS["alg3"][k],
-        "alg:se2": r2 + VALS["so2"][k],
+        "alg:se2": r2 + VALS["so2"][k], "alg:so3*r3": VALS["alg3"][k] + r3,
     }
     return table[gname]
 
@@ -57,9 +57,50 @@ class World:
                   "EulerB123": SO3EulerLieGroup(euler_type=EulerType.body_fixed, sequence=[Axis.x, Axis.y, Axis.z]),
                   "SE3Quat": L.SE3Quat, "SE3Mrp": L.SE3Mrp, "SE23Quat": L.SE23Quat, "SE23Mrp": L.SE23Mrp, "SE2": L.SE2, "SO2": L.SO2, "R3": L.R3,
                   "SO3Quat*R3": L.SO3Quat * L.R3, "SE3Quat*SE3Mrp": L.SE3Quat * L.SE3Mrp, "SE3Mrp*SE3Quat": L.SE3Mrp * L.SE3Quat}
-        self.alg = {"alg:so3": (L.so3, L.SO3Quat), "alg:se3": (L.se3, L.SE3Mrp), "alg:se23": (L.se23, L.SE23Quat), "alg:se2": (L.se2, L.SE2)}
+        self.tracked = []
+        self.alg = {"alg:so3": (L.so3, L.SO3Quat), "alg:se3": (L.se3, L.SE3Mrp), "alg:se23": (L.se23, L.SE23Quat), "alg:se2": (L.se2, L.SE2),
+                    "alg:so3*r3": (L.so3 * L.r3, L.SO3Quat * L.R3)}
 
     def make(self, gname, mk):
+        x = self._make(gname, mk)
+        self.track(x, lambda o: o.param)
+        return x
+
+    def track(self, obj, getter):
+        """(H4) remember what an operand denotes when it is handed to the library"""
+        self.tracked.append((obj, getter, self._num(getter(obj))))
+
+    def _num(self, x):
+        ca = self.ca
+        try:
+            return np.array(ca.DM(ca.densify(ca.SX(x)))).flatten(order="F").tolist()
+        except Exception:       # noqa
+            return None
+
+    @staticmethod
+    def _gsnap(G):
+        """sizes and factor counts of a group / algebra object"""
+        a = getattr(G, "algebra", None)
+        return [getattr(G, "n_param", None), len(getattr(G, "groups", ()) or ()), len(getattr(G, "algebras", ()) or ()),
+                getattr(a, "n_param", None), len(getattr(a, "algebras", ()) or ())]
+
+    def run(self, st):
+        """one step + (H4): every operand still denotes what it denoted, the group objects keep their shape"""
+        self.tracked = []
+        objs = [self.alg[st["g"]][0], self.alg[st["g"]][1]] if st["g"].startswith("alg:") else [self.g[st["g"]]]
+        before = [self._gsnap(o) for o in objs]
+        r = self._run_op(st)
+        mut = []
+        for obj, getter, snap in self.tracked:
+            now = self._num(getter(obj))
+            if snap is not None and (now is None or len(now) != len(snap) or not np.allclose(now, snap, rtol=0, atol=1e-15, equal_nan=True)):
+                mut.append({"operand": type(obj).__name__, "before": snap, "after": now})
+        after = [self._gsnap(o) for o in objs]
+        if after != before:
+            mut.append({"operand": "group/algebra object", "before": before, "after": after})
+        return {"r": r, "mutated": mut} if mut else r
+
+    def _make(self, gname, mk):
         ca = self.ca
         is_alg = gname.startswith("alg:")
         G = self.alg[gname][0] if is_alg else self.g[gname]
@@ -83,7 +124,22 @@ class World:
                 p[i] = float(x)
         return G.elem(p)
 
-    def run(self, st):
+    @staticmethod
+    def _quiet(f):
+        """the in-between activity of an H3 variant: whether IT is offered for this group does not matter"""
+        try:
+            return f()
+        except Exception:       # noqa
+            return None
+
+    def _extend(self, obj, is_alg):
+        """use a kept group / algebra object as the left factor of a larger direct product"""
+        try:
+            return obj * (self.L.so2 if is_alg else self.L.SO2)
+        except Exception:       # noqa
+            return None
+
+    def _run_op(self, st):
         ca, L = self.ca, self.L
         g, mk, op = st["g"], st["mk"], st["op"]
         is_alg = g.startswith("alg:")
@@ -93,14 +149,21 @@ class World:
         try:
             if is_alg:
                 alg, G = self.alg[g]
-                if op not in ("exp", "Ad", "Jl", "Jr", "Jli", "Jri", "mat", "Jl_after_Jr", "Jr_after_Jl", "Ad_held", "mat_held"):
+                if op not in ("exp", "Ad", "Jl", "Jr", "Jli", "Jri", "mat", "Jl_after_Jr", "Jr_after_Jl", "Ad_held", "mat_held", "scaled",
+                              "mat_after_extend", "Ad_after_extend"):
                     return "n/a"
                 x = self.make(g, mk)
+                if op == "scaled":
+                    return out((x * 0.25).param) + out((0.25 * x).param) + out((-x).param)
+                if op in ("mat_after_extend", "Ad_after_extend"):
+                    if self._extend(alg, True) is None:
+                        return "n/a"
+                    return out(x.to_Matrix() if op == "mat_after_extend" else x.ad())
                 if op == "Jl_after_Jr":
-                    x.right_jacobian(); x.right_jacobian_inv()
+                    self._quiet(x.right_jacobian); self._quiet(lambda: x.right_jacobian_inv())
                     return out(x.left_jacobian())
                 if op == "Jr_after_Jl":
-                    x.left_jacobian(); x.left_jacobian_inv()
+                    self._quiet(x.left_jacobian); self._quiet(lambda: x.left_jacobian_inv())
                     return out(x.right_jacobian())
                 if op in ("Ad_held", "mat_held"):
                     other = self.make(g, "a" if mk != "a" else "sd")
@@ -122,6 +185,22 @@ class World:
             if op == "ident":
                 return out(G.identity().to_Matrix())
             X = self.make(g, mk)
+            if op in ("mat_after_extend", "sq_after_extend", "log_after_extend", "Ad_after_extend"):
+                if self._extend(G, False) is None:
+                    return "n/a"
+                op = op[:-len("_after_extend")]
+            if op in ("mixed", "mixed2"):
+                if g not in ("SE23Quat", "SE23Mrp"):
+                    return "n/a"
+                l = self.make("alg:se23", "a"); r_ = self.make("alg:se23", "sd")
+                B = ca.SX(ca.DM([[0.0, 0.125], [0.0, 0.0]]))
+                self.track(B, lambda o: o)
+                Y = G.exp_mixed(X, l, r_, B)
+                if op == "mixed2":
+                    Y = G.exp_mixed(X, l, r_, B)
+                return out(Y.to_Matrix())
+            if op == "scaled":
+                return "n/a"
             if op == "mat":
                 return out(X.to_Matrix())
             if op == "inv":
@@ -138,9 +217,9 @@ class World:
                 return out(X.left_jacobian_inv() if op == "Jli" else X.right_jacobian_inv())
             if op in ("Jl_after_Jr", "Jr_after_Jl"):
                 if op == "Jl_after_Jr":
-                    X.right_jacobian(); X.right_jacobian_inv()
+                    self._quiet(X.right_jacobian); self._quiet(lambda: X.right_jacobian_inv())
                     return out(X.left_jacobian())
-                X.left_jacobian(); X.left_jacobian_inv()
+                self._quiet(X.left_jacobian); self._quiet(lambda: X.left_jacobian_inv())
                 return out(X.right_jacobian())
             if op in ("Ad_held", "mat_held"):
                 other = self.make(g, "a" if mk != "a" else "sd")
@@ -190,6 +269,8 @@ def _run_history(steps):
 
 
 def _same(a, b, tol=1e-12):
+    a = a["r"] if isinstance(a, dict) else a
+    b = b["r"] if isinstance(b, dict) else b
     if isinstance(a, str) or isinstance(b, str):
         return a == b
     a, b = np.asarray(a, float), np.asarray(b, float)
@@ -224,6 +305,19 @@ def run(run_, tier, ops, workers=12):
                 out[k] = f.result()
             except Exception as e:      # noqa
                 raise MachineryError(f"history {k} could not be executed: {e}")
+    # H4: operands are values
+    base = {"Jl_after_Jr": "Jl", "Jr_after_Jl": "Jr", "Ad_held": "Ad", "mat_held": "mat", "mixed2": "mixed", "mat_after_extend": "mat",
+            "sq_after_extend": "sq", "log_after_extend": "log", "Ad_after_extend": "Ad"}
+    reported = set()
+    for k, steps in hs.items():
+        for i, (st, r) in enumerate(zip(steps, out[k])):
+            if isinstance(r, dict):
+                out[k][i] = r["r"]
+                sk = (st["g"], st["op"])
+                if (st["op"] in ops or base.get(st["op"]) in ops) and sk not in reported:
+                    reported.add(sk)
+                    run_.violation(f"history/{st['g']}/{st['op']}/operand_mutated", "a call changed an object it was given (its argument element, the matrix B, or "
+                                   "the group / algebra object): the caller's value is different after the call", {"step": st, "history": list(k), "mutated": r["mutated"][:3]})
     # H1: the same step in different histories
     seen = {}
     nsteps = 0
@@ -251,15 +345,15 @@ def run(run_, tier, ops, workers=12):
                     run_.violation(f"history/{g}/{op}/equal_value_makers:{a}|{b}", "two ways of building the SAME element (identity() vs exp of an empty algebra "
                                    "element; sparsely vs densely stored numbers) give different results", {"group": g, "op": op, "result_" + a: r, "result_" + b: r2})
     # H3: operations that only differ in what else was done with the same objects
-    base = {"Jl_after_Jr": "Jl", "Jr_after_Jl": "Jr", "Ad_held": "Ad", "mat_held": "mat"}
     for (g, mk, op), (k, r) in seen.items():
-        if op in base and (g, mk, base[op]) in seen and base[op] in ops:
+        if op in base and (g, mk, base[op]) in seen and (base[op] in ops or op in ops):
             r0 = seen[(g, mk, base[op])][1]
-            if isinstance(r, str) or isinstance(r0, str):
-                continue
-            if not _same(r, r0, tol=1e-12):
-                run_.violation(f"history/{g}/{base[op]}/{op}", "the result of a call depends on what else was done with the same element object (call order on one "
-                               "object, or a result held while the method runs on another element)", {"group": g, "maker": mk, "result": r, "result_base": r0})
+            if isinstance(r0, str) or r in ("n/a", "NotImplementedError"):
+                continue            # the base operation is not offered here: nothing to compare (an exception where the base gives a value IS compared)
+            if isinstance(r, str) or not _same(r, r0, tol=1e-12):
+                run_.violation(f"history/{g}/{base[op]}/{op}", "the result of a call depends on what else was done with the same objects (call order on one element, a "
+                               "result held while the method runs on another element, a second call with the same arguments, or the "
+                               "group / algebra object used as the left factor of a larger direct product in between)", {"group": g, "maker": mk, "result": r, "result_base": r0})
     run_.count("history_steps", nsteps)
     run_.count("histories", len(hs))
     na = sum(1 for v in seen.values() if v[1] == "n/a")
